@@ -211,7 +211,13 @@ func newC06World(c *mon.Case, refc bool, delay time.Duration, outcome func(strin
 		w.mu.Unlock()
 	})}
 	if delay != 0 {
-		opts = append(opts, keyed.WithReleaseDelay[string, int](delay))
+		if c.Index%5 == 4 {
+			// WithReleaseDelay takes the magnitude of a negative duration
+			opts = append(opts, keyed.WithReleaseDelay[string, int](-delay))
+			c.Count("negative_release_delay_cases", 1)
+		} else {
+			opts = append(opts, keyed.WithReleaseDelay[string, int](delay))
+		}
 	}
 	if refc {
 		if c.Index%4 == 3 {
@@ -1025,6 +1031,9 @@ func runC07(w *mon.Worker) {
 	for i := 0; i < w.Share(w.Scale(64, 2000)); i++ {
 		w.Case("constructors", nil, c07ConstructorsCase)
 	}
+	for i := 0; i < w.Share(w.Scale(16, 160)); i++ {
+		w.Case("retry-per-key", nil, c07RetryPerKeyCase)
+	}
 }
 
 func c07BurstCase(c *mon.Case, retry bool) {
@@ -1836,4 +1845,65 @@ func c07ConstructorsCase(c *mon.Case) {
 	}
 	_ = g // what the exit callback saw is recorded, not judged: C07 does not speak about exit callbacks
 	clear()
+}
+
+// c07RetryPerKeyCase: with WithRetry every key has a retry schedule of its own. Key a fails until its backoff gives up
+// (MaxElapsedTime); key b, added afterwards, fails once and then succeeds: it must still be run again.
+func c07RetryPerKeyCase(c *mon.Case) {
+	const maxElapsed = 300 * time.Millisecond
+	var mu sync.Mutex
+	runs := map[string]int{}
+	var bFirstExit time.Time
+	ctor := func(key string) (keyed.Routine, int) {
+		return func(ctx context.Context) error {
+			mu.Lock()
+			runs[key]++
+			n := runs[key]
+			mu.Unlock()
+			if key == "a" {
+				return fmt.Errorf("key a always fails (run %d)", n)
+			}
+			if n == 1 {
+				mu.Lock()
+				bFirstExit = time.Now()
+				mu.Unlock()
+				return fmt.Errorf("key b fails once")
+			}
+			return nil
+		}, 1
+	}
+	k := keyed.NewKeyed(ctor, keyed.WithRetry[string, int](&ubackoff.Backoff{
+		BackoffKind: ubackoff.BackoffKind_BackoffKind_EXPONENTIAL,
+		Exponential: &ubackoff.Exponential{InitialInterval: 1, MaxInterval: 2, Multiplier: 1.5, MaxElapsedTime: uint32(maxElapsed / time.Millisecond)},
+	}))
+	ctx, cancel := context.WithCancel(context.Background())
+	defer cancel()
+	k.SetContext(ctx, false)
+	k.SetKey("a", true)
+	// let key a's backoff run out (its retries stop for good), then some
+	time.Sleep(maxElapsed + 100*time.Millisecond)
+	if !mon.SettleTimers(2*time.Millisecond, 5, 20*time.Millisecond, 10*time.Second) {
+		c.Inconclusive("no quiescence after key a gave up")
+		return
+	}
+	t0 := time.Now()
+	k.SetKey("b", true)
+	if !mon.SettleTimers(2*time.Millisecond, 10, 40*time.Millisecond, 10*time.Second) {
+		c.Inconclusive("no quiescence after adding key b")
+		return
+	}
+	mu.Lock()
+	rb, ra, fe := runs["b"], runs["a"], bFirstExit
+	mu.Unlock()
+	c.Count("retry_per_key_templates", 1)
+	c.NonTrivial()
+	c.Mix(uint64(ra))
+	if fe.IsZero() || fe.Sub(t0) > maxElapsed/3 {
+		c.Inconclusive("key b's first run came too late to judge against its backoff's MaxElapsedTime")
+		return
+	}
+	if rb != 2 {
+		c.Violate("retry", "keyed-failed-routine-not-retried", "WithRetry(exponential, MaxElapsedTime %v): key a failed %d times until its backoff gave up; key b, added afterwards, failed once within %v of being added and must be run again after its own backoff, but it ran %d time(s) in total (want 2)", maxElapsed, ra, fe.Sub(t0), rb)
+	}
+	k.ClearContext()
 }
